@@ -1,4 +1,5 @@
 pub mod c01;
+pub mod c04;
 pub mod c12;
 pub mod c13;
 pub mod c14;
@@ -6,5 +7,5 @@ pub mod c14;
 use cvx_core::engine::Check;
 
 pub fn registry() -> Vec<&'static dyn Check> {
-    vec![&c01::C01, &c12::C12, &c13::C13, &c14::C14]
+    vec![&c01::C01, &c04::C04, &c12::C12, &c13::C13, &c14::C14]
 }
